@@ -1038,3 +1038,31 @@ def import_obligations(ctx, chk, mod, pid, level, select, tag):
             chk.ob(tag, '%s:%s' % (o['rule'], o['key']), o['ok'], o['where'], o['detail'])
             n += 1
     return n
+
+
+def single_precision_sites(fb, root, crates):
+    """(number of float assignments seen, [(function, block, where)] producing an f32) in `root` and the functions of the
+    given crates it reaches, outside log expansions: assignments whose destination is f32 and calls returning f32"""
+    n_float = 0
+    narrow = []
+    bodies = {root.path: root}
+    for x, _, _, _ in reachable_calls(fb, root):
+        bodies.setdefault(x.path, x)
+    for ob in bodies.values():
+        if ob.crate.name not in crates:
+            continue
+        for bi, blk in enumerate(ob.blocks):
+            if mir.in_tracing(blk['tspan']):
+                continue
+            for st_ in blk['stmts']:
+                if st_['k'] != 'assign' or 'ty' not in st_['p']:
+                    continue
+                ts_ = ob.tystr(st_['p']['ty'])
+                if ts_ in ('f32', 'f64') and st_['r'].get('k') in ('bin', 'un', 'cast', 'use'):
+                    n_float += 1
+                    if ts_ == 'f32' and (ob.path, bi) not in [(a, b) for a, b, _ in narrow]:
+                        narrow.append((ob.path, bi, ob.where(bi)))
+            t_ = blk['term']
+            if t_['k'] == 'call' and 'ty' in t_['dest'] and ob.tystr(t_['dest']['ty']) == 'f32' and (ob.path, bi) not in [(a, b) for a, b, _ in narrow]:
+                narrow.append((ob.path, bi, ob.where(bi)))
+    return n_float, narrow
